@@ -601,6 +601,30 @@ func (w *World) recordState() {
 		}()
 	}
 	mix(w.X.bsiState())
+	for _, o := range w.X.B64 {
+		func() {
+			defer func() { recover() }()
+			for _, b := range o.BM.VerifBuckets() {
+				f := uint64(0)
+				if b.NeedCOW {
+					f = 1
+				}
+				nk := uint64(0)
+				kinds := uint64(0)
+				if b.Inner != nil {
+					for _, c := range b.Inner.VerifChunks() {
+						nk++
+						kinds |= 1 << uint(c.Kind+1)
+					}
+				}
+				if nk > 3 {
+					nk = 3
+				}
+				mix(0x64<<16 | nk<<8 | kinds<<1 | f)
+			}
+			mix(0xFFFE)
+		}()
+	}
 	mix(HashStr(w.curOp))
 	w.St.States[h] = struct{}{}
 }
